@@ -481,9 +481,13 @@ static void classify_err(int k, char *cls, size_t clen, char *tail, size_t tlen)
         cls[0] = 0; tail[0] = 0;
         FILE *f = fopen(p, "r");
         if (!f) return;
-        char line[1024]; size_t o = 0; int lines = 0;
+        char line[1024], fn[80] = ""; size_t o = 0; int lines = 0;
         while (fgets(line, sizeof line, f)) {
                 char *q;
+                /* first stack frame inside the code under test names the call site */
+                if (!fn[0] && cls[0] && (q = strstr(line, " in ")) && strstr(line, "    #")
+                    && (strstr(q, "/src/") || strstr(q, "/daemon/")) && !strstr(q, "/verif/"))
+                        sscanf(q + 4, "%79[^ \n]", fn);
                 if (!cls[0]) {
                         if ((q = strstr(line, "AddressSanitizer: "))) {
                                 char w[64] = ""; sscanf(q + 18, "%63[^ \n]", w);
@@ -507,6 +511,7 @@ static void classify_err(int k, char *cls, size_t clen, char *tail, size_t tlen)
                 if (lines++ < 14 && o + strlen(line) + 2 < tlen) { clean(line); o += snprintf(tail + o, tlen - o, "%s | ", line); }
         }
         fclose(f);
+        if (fn[0] && strlen(cls) + strlen(fn) + 2 < clen) { strcat(cls, "@"); strcat(cls, fn); }
 }
 
 /* re-run one timed out case alone with a longer limit before calling it a hang */
